@@ -554,6 +554,51 @@ func c01FamilyFile(frame string, stack []string) string {
 	return file(frame)
 }
 
+var c01ReSubdir = regexp.MustCompile(`^#?[\t ]*SUBDIR[\t ]*\+?=[\t ]*([^#]*?)[\t ]*(#.*)?$`)
+
+// c01WithoutSelfSubdirs: the case without the SUBDIR lines of top-level and
+// category Makefiles that name the directory itself or one of its ancestors
+// (`SUBDIR+= .`, an empty `SUBDIR=`, `..`, `../cat`); ok = there was one.
+func c01WithoutSelfSubdirs(c *c01Case) (variant *c01Case, ok bool) {
+	variant = c01With(c, func(n *c01Case) {})
+	for i, e := range variant.Spec.Entries {
+		if e.Kind != 'f' || filepath.Base(e.Path) != "Makefile" || strings.Count(e.Path, "/") > 1 {
+			continue
+		}
+		dir := filepath.Dir(e.Path)
+		var keep []string
+		changed := false
+		for _, l := range strings.SplitAfter(e.Data, "\n") {
+			m := c01ReSubdir.FindStringSubmatch(strings.TrimRight(l, "\r\n"))
+			self := false
+			if m != nil {
+				words := strings.Fields(m[1])
+				if len(words) == 0 {
+					words = []string{""}
+				}
+				for _, w := range words {
+					t := filepath.Clean(filepath.Join("/root", dir, w))
+					base := filepath.Clean(filepath.Join("/root", dir))
+					if !strings.Contains(w, "$") && (t == base || strings.HasPrefix(base+"/", t+"/") || t == "/") {
+						self = true
+					}
+				}
+			}
+			if self {
+				changed = true
+			} else {
+				keep = append(keep, l)
+			}
+		}
+		if changed {
+			ok = true
+			variant.Spec.Entries[i].Data = strings.Join(keep, "")
+			variant.Spec.Entries[i].Base = false
+		}
+	}
+	return
+}
+
 // c01MaxExprNesting: the deepest nesting of ${ / $( in any non-base file.
 func c01MaxExprNesting(ts *TreeSpec) int {
 	max := 0
